@@ -62,6 +62,20 @@ func (p *Prog) CallOf(ins ssa.Instruction) *Call {
 		return c
 	}
 	if fn == nil {
+		// a call through a function-typed location that holds one named function for the whole life of the program (a
+		// test seam: var now = time.Now, or a field every constructor sets to rand.Float64) is a call of that function
+		if u, ok := cc.Value.(*ssa.UnOp); ok && u.Op == token.MUL {
+			switch x := u.X.(type) {
+			case *ssa.Global:
+				fn = p.globalConstFunc(x)
+			case *ssa.FieldAddr:
+				if fr, _, ok := fieldOf(x); ok {
+					fn = p.fieldConstFunc(fr)
+				}
+			}
+		}
+	}
+	if fn == nil {
 		c.Name = "dynamic"
 		c.FnVal = cc.Value
 		c.Args = cc.Args
@@ -703,6 +717,96 @@ func boundReceiver(v ssa.Value) ssa.Value {
 		fn := mc.Fn.(*ssa.Function)
 		if strings.HasPrefix(fn.Synthetic, "bound method wrapper") && len(mc.Bindings) == 1 {
 			return mc.Bindings[0]
+		}
+	}
+	return nil
+}
+
+// globalConstFunc: the function an unexported package-level function variable holds for ever (assigned once, by the
+// package initialiser; otherwise only loaded), or nil.
+func (p *Prog) globalConstFunc(g *ssa.Global) *ssa.Function {
+	if p.constFuncG == nil {
+		p.constFuncG = map[*ssa.Global]*ssa.Function{}
+	}
+	if fn, ok := p.constFuncG[g]; ok {
+		return fn
+	}
+	fn := ssa.GlobalFuncValue(g)
+	p.constFuncG[g] = fn
+	return fn
+}
+
+// fieldConstFunc: the one named function stored into a function-typed field by every writer, the field being written
+// only while its object is under construction; nil otherwise.
+func (p *Prog) fieldConstFunc(fr FieldRef) *ssa.Function {
+	if fr.Type == nil {
+		return nil
+	}
+	if p.constFuncF == nil {
+		p.constFuncF = map[string]*ssa.Function{}
+	}
+	key := p.FieldKey(fr)
+	if fn, ok := p.constFuncF[key]; ok {
+		return fn
+	}
+	p.constFuncF[key] = nil
+	st := structOf(fr.Type)
+	if st == nil || fr.Index >= st.NumFields() {
+		return nil
+	}
+	if _, isSig := st.Field(fr.Index).Type().Underlying().(*types.Signature); !isSig || !p.FieldImmutable(fr) {
+		return nil
+	}
+	var val *ssa.Function
+	n := 0
+	for _, f := range p.Funcs {
+		for _, b := range f.Blocks {
+			for _, ins := range b.Instrs {
+				sto, ok := ins.(*ssa.Store)
+				if !ok {
+					continue
+				}
+				fa, ok := sto.Addr.(*ssa.FieldAddr)
+				if !ok || fa.Field != fr.Index {
+					continue
+				}
+				if f2, _, ok := fieldOf(fa); !ok || !sameField(f2, fr) {
+					continue
+				}
+				n++
+				fv, isF := sto.Val.(*ssa.Function)
+				if !isF || (val != nil && val != fv) {
+					return nil
+				}
+				val = fv
+			}
+		}
+	}
+	if n == 0 {
+		return nil
+	}
+	p.constFuncF[key] = val
+	return val
+}
+
+// constFuncOf: the named function a value denotes - a function constant, or a load of a location that holds one
+// function for ever (globalConstFunc / fieldConstFunc); nil otherwise.
+func (p *Prog) constFuncOf(v ssa.Value) *ssa.Function {
+	v = strip(v, false)
+	switch x := v.(type) {
+	case *ssa.Function:
+		return x
+	case *ssa.UnOp:
+		if x.Op != token.MUL {
+			return nil
+		}
+		switch a := x.X.(type) {
+		case *ssa.Global:
+			return p.globalConstFunc(a)
+		case *ssa.FieldAddr:
+			if fr, _, ok := fieldOf(a); ok {
+				return p.fieldConstFunc(fr)
+			}
 		}
 	}
 	return nil
